@@ -279,7 +279,13 @@ func (app *App) txChecker() txChecker {
 
 		err := serialize.GetSerializer(serialize.NETWORK).Deserialize(msg.Tx, tx)
 		if err != nil {
+			// a decoder error can leave the transaction partly filled: never hand that to a handler
 			app.logger.Errorf("checkTx failed to deserialize msg: %v, error: %s ", msg, err)
+			app.Context.check.DiscardTxSession()
+			return ResponseCheckTx{
+				Code: CodeNotOK.uint32(),
+				Log:  "failed to deserialize transaction: " + err.Error(),
+			}
 		} else if !isCanonicalEncoding(tx, msg.Tx) {
 			app.Context.check.DiscardTxSession()
 			return ResponseCheckTx{
@@ -365,7 +371,13 @@ func (app *App) txDeliverer() txDeliverer {
 
 		err := serialize.GetSerializer(serialize.NETWORK).Deserialize(msg.Tx, tx)
 		if err != nil {
+			// a decoder error can leave the transaction partly filled: never hand that to a handler
 			app.logger.Errorf("deliverTx failed to deserialize msg: %v, error: %s ", msg, err)
+			app.Context.deliver.DiscardTxSession()
+			return ResponseDeliverTx{
+				Code: CodeNotOK.uint32(),
+				Log:  "failed to deserialize transaction: " + err.Error(),
+			}
 		} else if !isCanonicalEncoding(tx, msg.Tx) {
 			app.Context.deliver.DiscardTxSession()
 			return ResponseDeliverTx{
